@@ -3,6 +3,7 @@ package props
 import (
 	"encoding/json"
 	"fmt"
+	"image"
 	"math"
 
 	"github.com/reactivego/ivg"
@@ -40,7 +41,8 @@ type c06Case struct {
 	X1, Y1, X, Y uint32
 	VB, Rect     int
 	// Prefix: operations between StartPath and the judged arc. 0 none; 1 a proper arc; 2 a proper
-	// arc then a zero-radius arc; 3 a cubic then a zero-radius arc. They end at (X1,Y1).
+	// arc then a zero-radius arc; 3 a cubic then a zero-radius arc; 4 a previous graphic whose last
+	// arc ended on the same pixel; 5 an undrawn path with a relative arc. They end at (X1,Y1).
 	Prefix int    `json:"prefix,omitempty"`
 	Flags  []int  `json:"decoded_flags,omitempty"` // [value, width, relative]: the decoded-flags route
 	Desc   string `json:"desc,omitempty"`
@@ -50,7 +52,7 @@ func init() {
 	mc.Register(&mc.Check{
 		ID:    "C06",
 		Level: "exploration",
-		Rule: "engine P: radii {0,0.5,1,3,20,-3}^2 x rotation {0,1/24,1/8,1/4,0.3,0.5,0.9,-0.1,1.25} x 4 flag combinations x start and end points from a 7x7 (thorough 12x12) lattice plus three end points 1/64 away from the start and six end points a diameter away along the rotated axes (+- one float32 step; start != end) x {absolute, relative} x 4 viewBoxes x 3 rectangles (non-uniform scale, off-origin), each driven into a real Renderer over a recording rasteriser; plus 21 flags naturals (reserved bits set) x every width x {absolute, relative} through the decoder against the direct call; for two lattice columns of end points the arc is also judged as a later operation of its path (after a proper arc; after a proper arc and a zero-radius arc; after a cubic and a zero-radius arc). " +
+		Rule: "engine P: radii {0,0.5,1,3,20,-3}^2 x rotation {0,1/24,1/8,1/4,0.3,0.5,0.9,-0.1,1.25} x 4 flag combinations x start and end points from a 7x7 (thorough 12x12) lattice plus three end points 1/64 away from the start and six end points a diameter away along the rotated axes (+- one float32 step; start != end) x {absolute, relative} x 4 viewBoxes x 3 rectangles (non-uniform scale, off-origin), each driven into a real Renderer over a recording rasteriser; plus 21 flags naturals (reserved bits set) x every width x {absolute, relative} through the decoder against the direct call; for two lattice columns of end points the arc is also judged as a later operation of its path (after a proper arc; after a proper arc and a zero-radius arc; after a cubic and a zero-radius arc; after a previous graphic whose last arc ended on the same pixel; after an undrawn path containing a relative arc). " +
 			"Oracle: zero radius => one LineTo to the mapped end point; else 1..4 CubeTo ending at the mapped end point; every cubic's end point and its points at t=1/4,1/2,3/4, un-mapped to viewBox space, lie on the ellipse given by an independent SVG F.6.5 centre computation (radii scaled up when too small); the accumulated sweep has the sign of the sweep flag and exceeds a half turn iff large-arc. " +
 			"distinct = (number of cubics, scaled-up, flags, zero radius); non-trivial = arc emitted as cubics",
 		Assumptions: []string{"configurations within 1e-6 of a half turn are skipped and counted (flags do not determine the arc there)", "tolerances: 1e-4 R for end points, 5e-4 R for interior points (standard 4/3 tan(theta/4) construction, <= 90 degree pieces)"},
@@ -98,7 +100,7 @@ func init() {
 									st.check(&cs)
 									// the same arc as the second, third ... operation of its path (lattice end points only)
 									if vb == 0 && (p2[0] == -7 || p2[0] == 3.25) {
-										for pf := 1; pf <= 3; pf++ {
+										for pf := 1; pf <= 5; pf++ {
 											c := cs
 											c.Prefix = pf
 											st.check(&c)
@@ -212,8 +214,15 @@ func (st *c06State) check(cs *c06Case) {
 	x1, y1, x, y := b32f(cs.X1), b32f(cs.Y1), b32f(cs.X), b32f(cs.Y)
 	var z render.Renderer
 	st.ras.ResetLog()
-	z.SetRasterizer(&st.ras, rect)
-	z.Reset(vb, ivg.DefaultPalette)
+	if cs.LA == cs.SW {
+		z.SetRasterizer(&st.ras, rect)
+		z.Reset(vb, ivg.DefaultPalette)
+	} else {
+		// the target is configured twice: another rectangle first, the final one only after Reset
+		z.SetRasterizer(&st.ras, image.Rect(4, 2, 4+rect.Dy()+1, 2+rect.Dx()+6))
+		z.Reset(vb, ivg.DefaultPalette)
+		z.SetRasterizer(&st.ras, rect)
+	}
 	switch cs.Prefix {
 	case 0:
 		z.StartPath(0, x1, y1)
@@ -224,10 +233,28 @@ func (st *c06State) check(cs *c06Case) {
 		z.StartPath(0, x1-3, y1+1)
 		z.RelArcTo(2.5, 4, 0.1, true, false, 5, -2)
 		z.AbsArcTo(0, 3, 0, false, false, x1, y1)
-	default:
+	case 3:
 		z.StartPath(0, x1+2, y1+2)
 		z.RelCubeTo(1, 0, 2, 1, 3, 3)
 		z.RelArcTo(1, 0, 0.25, true, true, -5, -5)
+	case 4:
+		// the previous graphic on this Renderer (viewBox twice as large, so that its point
+		// (2*x1, 2*y1) is the pixel of (x1, y1) now) ended an arc exactly where this arc starts
+		z.Reset(ivg.ViewBox{MinX: 2 * vb.MinX, MinY: 2 * vb.MinY, MaxX: 2 * vb.MaxX, MaxY: 2 * vb.MaxY}, ivg.DefaultPalette)
+		z.StartPath(0, 2*x1-6, 2*y1+2)
+		z.AbsArcTo(5, 8, 0.1, false, true, 2*x1, 2*y1)
+		z.ClosePathEndPath()
+		z.Reset(vb, ivg.DefaultPalette)
+		z.StartPath(0, x1, y1)
+	default:
+		// an earlier path of the graphic is not drawn (outside its level-of-detail range) and
+		// contains a relative arc
+		z.SetLOD(10000, 20000)
+		z.StartPath(0, x1+1, y1-1)
+		z.RelArcTo(2, 3, 0.2, true, false, 3, 1)
+		z.ClosePathEndPath()
+		z.SetLOD(0, float32(math.Inf(1)))
+		z.StartPath(0, x1, y1)
 	}
 	n0 := len(st.ras.Calls)
 	ex, ey := x, y // arguments
